@@ -461,6 +461,12 @@ func checkC18(r *Run) {
 			switch v := e.(type) {
 			case *ast.UnaryExpr:
 				_, ok = v.X.(*ast.CompositeLit)
+				// &reply with reply a local value declared in this activation (var reply rgetattr)
+				if lo := objOf(info, v.X); !ok && v.Op == token.AND && lo != nil && lo.Parent() != lo.Pkg().Scope() && lo.Pos() > fi.Decl.Body.Pos() {
+					if _, isPtr := lo.Type().Underlying().(*types.Pointer); !isPtr {
+						ok = true
+					}
+				}
 			case *ast.CallExpr:
 				ok = calleeKey(info, v) == "p9.newErr"
 			case *ast.Ident:
